@@ -132,9 +132,9 @@ func inErrBranch(info *types.Info, pm map[ast.Node]ast.Node, n ast.Node) bool {
 }
 
 func runC06(c *Ctx) {
-	c.Rule("R06a", "writers re-hash: in every function (declaration or literal) that writes a file into a migrate.Dir (WriteFile/WriteCheckpoint, name other than atlas.sum), every path from the success edge of the write to a non-error return passes a call reaching migrate.WriteSumFile (listed exception: migrate.UnarchiveDirFrom restores an archive verbatim, including its own atlas.sum; Dir implementations' own WriteFile/WriteCheckpoint forwarders are the primitive)", 7)
+	c.Rule("R06a", "writers re-hash: in every function (declaration or literal) that writes a file into a migrate.Dir (WriteFile/WriteCheckpoint, name other than atlas.sum), every path from the success edge of the write to a non-error return passes a call reaching migrate.WriteSumFile (listed exception: migrate.UnarchiveDirFrom restores an archive verbatim, including its own atlas.sum; Dir implementations' own WriteFile/WriteCheckpoint forwarders are the primitive)", 4)
 	c.Rule("R06b", "every `atlas migrate` sub-command validates the directory before consuming it: PreRunE (checkDir / migrate.Validate) or, for apply and lint, the run function; the validation result is returned or tested, never discarded; commands are enumerated from the command tree and each must have a table entry", 9)
-	c.Rule("R06c", "digest construction: NewHashFile feeds Name() and Bytes() of every file into one running hash created outside the loop; HashFile.Sum covers N and H; MarshalText/UnmarshalText agree on the h1: prefix; UnmarshalText verifies the header sum and returns ErrChecksumMismatch", 6)
+	c.Rule("R06c", "digest construction: NewHashFile feeds Name() and Bytes() of every file into one running hash created outside the loop; HashFile.Sum covers N and H; MarshalText/UnmarshalText agree on the h1: prefix; UnmarshalText verifies the header sum and returns ErrChecksumMismatch", 4)
 	c.Rule("R06g", ruleTextSumLineSplit, 1)
 	checkSumLineSplit(c, "R06g")
 	c.Rule("R06d", "migrate.Validate: compares stored and recomputed sums; every path through the mismatch branch returns a non-nil error; Executor.Pending validates before reading revisions or files", 3)
@@ -274,7 +274,7 @@ func runC06(c *Ctx) {
 	}
 
 	// ---- R06e
-	c.Rule("R06e", "the sum written for a directory is that directory's own checksum: in every call WriteSumFile(D, S), S is the result of D.Checksum() (listed exception: MemDir.CopyFiles hashes the files it was just given, in the order produced by Dir.Files)", 6)
+	c.Rule("R06e", "the sum written for a directory is that directory's own checksum: in every call WriteSumFile(D, S), S is the result of D.Checksum() (listed exception: MemDir.CopyFiles hashes the files it was just given, in the order produced by Dir.Files)", 3)
 	c.allBodies(func(b bodyInfo) {
 		info := b.fi.Info()
 		walkShallow(b.body, func(m ast.Node) bool {
